@@ -113,6 +113,10 @@ pub enum ReadStep {
     /// A hard error; the reader keeps working afterwards (so that code which
     /// swallows the error and carries on is visible as "hashed past").
     Fail(ErrKind),
+    /// A persistent failure (EIO on a dying disk, EISDIR, ...): this call and
+    /// every later one fails.  Code that skips failed reads and retries spins
+    /// forever; the seam's call budget turns that into a liveness violation.
+    FailForever(ErrKind),
     /// The producer died: from now on every call reports end of input.
     Eof,
 }
@@ -125,6 +129,7 @@ pub struct SeamLog {
     pub intr: u64,
     pub short: u64,
     pub hard_errors: Vec<(u64, ErrKind)>,
+    pub persistent: bool,
     pub early_eof_at: Option<usize>,
     pub eof_reported: u64,
     pub zero_len_buf: u64,
@@ -147,7 +152,7 @@ impl SeamLog {
             *ctx.faults.entry("short_read").or_insert(0) += self.short;
         }
         for _ in &self.hard_errors {
-            ctx.fault("hard_error");
+            ctx.fault(if self.persistent { "persistent_error" } else { "hard_error" });
         }
         if self.early_eof_at.is_some() {
             ctx.fault("early_eof");
@@ -162,6 +167,7 @@ pub struct SimReader {
     script: Vec<ReadStep>,
     si: usize,
     dead: bool,
+    broken: Option<ErrKind>,
     budget: u64,
     pub log: SharedLog,
 }
@@ -175,6 +181,7 @@ impl SimReader {
             script,
             si: 0,
             dead: false,
+            broken: None,
             budget,
             log: Rc::new(RefCell::new(SeamLog::default())),
         }
@@ -201,6 +208,10 @@ impl Read for SimReader {
             log.eof_reported += 1;
             log.events.push((3, 0));
             return Ok(0);
+        }
+        if let Some(k) = self.broken {
+            log.events.push((5, k as u64));
+            return Err(io::Error::new(k.to_io(), "simulated persistent I/O error"));
         }
         let remaining = self.data.len() - self.pos;
         let step = if self.si < self.script.len() {
@@ -236,6 +247,14 @@ impl Read for SimReader {
                 log.events.push((2, k as u64));
                 Err(io::Error::new(k.to_io(), "simulated I/O error"))
             }
+            ReadStep::FailForever(k) => {
+                let c = log.calls;
+                log.hard_errors.push((c, k));
+                log.persistent = true;
+                log.events.push((2, k as u64));
+                self.broken = Some(k);
+                Err(io::Error::new(k.to_io(), "simulated persistent I/O error"))
+            }
             ReadStep::Eof => {
                 self.dead = true;
                 if remaining > 0 {
@@ -259,6 +278,7 @@ pub struct SimBufReader {
     script: Vec<ReadStep>,
     si: usize,
     dead: bool,
+    broken: Option<ErrKind>,
     budget: u64,
     pub log: SharedLog,
 }
@@ -273,6 +293,7 @@ impl SimBufReader {
             script,
             si: 0,
             dead: false,
+            broken: None,
             budget,
             log: Rc::new(RefCell::new(SeamLog::default())),
         }
@@ -298,6 +319,10 @@ impl BufRead for SimBufReader {
             log.eof_reported += 1;
             log.events.push((3, 0));
             return Ok(&[]);
+        }
+        if let Some(k) = self.broken {
+            log.events.push((5, k as u64));
+            return Err(io::Error::new(k.to_io(), "simulated persistent I/O error"));
         }
         let remaining = self.data.len() - self.pos;
         let step = if self.si < self.script.len() {
@@ -330,6 +355,14 @@ impl BufRead for SimBufReader {
                 log.hard_errors.push((c, k));
                 log.events.push((2, k as u64));
                 Err(io::Error::new(k.to_io(), "simulated I/O error"))
+            }
+            ReadStep::FailForever(k) => {
+                let c = log.calls;
+                log.hard_errors.push((c, k));
+                log.persistent = true;
+                log.events.push((2, k as u64));
+                self.broken = Some(k);
+                Err(io::Error::new(k.to_io(), "simulated persistent I/O error"))
             }
             ReadStep::Eof => {
                 self.dead = true;
